@@ -912,6 +912,33 @@ _CTOR_PARAMS = ['data', 'observation_ids', 'sample_ids',
                 'observation_metadata', 'sample_metadata']
 
 
+_TABLE_RECEIVERS = ('self', 'table', 't', 'other', 'tab', 'result',
+                    'tmp_table')
+TABLE_SIGNATURES = {}
+
+
+def load_table_signatures(table_src):
+    """Parameter names of the methods of class Table (for reading
+    positional and keyword arguments alike)."""
+    TABLE_SIGNATURES.clear()
+    try:
+        tree = ast.parse(table_src)
+    except SyntaxError:
+        return
+    for c in tree.body:
+        if isinstance(c, ast.ClassDef) and c.name == 'Table':
+            for m in c.body:
+                if isinstance(m, ast.FunctionDef):
+                    a = m.args
+                    if a.vararg or a.posonlyargs:
+                        TABLE_SIGNATURES[m.name] = None
+                        continue
+                    ps = [x.arg for x in a.args]
+                    if ps and ps[0] in ('self', 'cls'):
+                        ps = ps[1:]
+                    TABLE_SIGNATURES[m.name] = ps
+
+
 class _Canon(ast.NodeTransformer):
     """`x = a if c else b` is read as `if c: x = a  else: x = b`; the first
     five arguments of a Table constructor call are read positionally
@@ -933,9 +960,74 @@ class _Canon(ast.NodeTransformer):
             return ast.copy_location(new, node)
         return node
 
+    _NEG = {ast.Eq: ast.NotEq, ast.NotEq: ast.Eq, ast.Is: ast.IsNot,
+            ast.IsNot: ast.Is, ast.In: ast.NotIn, ast.NotIn: ast.In}
+
+    def visit_UnaryOp(self, node):
+        self.generic_visit(node)
+        # not (a == b) -> a != b  (==, !=, is, is not, in, not in only: the
+        # ordering comparisons are not negated, NaN)
+        if isinstance(node.op, ast.Not) and isinstance(
+                node.operand, ast.Compare) and len(node.operand.ops) == 1 \
+                and type(node.operand.ops[0]) in self._NEG and (
+                    not isinstance(node.operand.ops[0], (ast.Eq, ast.NotEq))
+                    or isinstance(node.operand.comparators[0], ast.Constant)
+                    or isinstance(node.operand.left, ast.Constant)):
+            # (== / != only against a constant: objects may define __ne__)
+            c = node.operand
+            return ast.copy_location(ast.Compare(
+                left=c.left, ops=[self._NEG[type(c.ops[0])]()],
+                comparators=c.comparators), node)
+        if isinstance(node.op, ast.Not) and isinstance(
+                node.operand, ast.UnaryOp) and isinstance(
+                node.operand.op, ast.Not) and False:
+            return node.operand.operand
+        return node
+
+    def visit_If(self, node):
+        # if not c: A else: B  ->  if c: B else: A   (decided on the test as
+        # written, before `not a == b` is read as `a != b`)
+        if node.orelse and isinstance(node.test, ast.UnaryOp) and \
+                isinstance(node.test.op, ast.Not):
+            node = ast.copy_location(ast.If(
+                test=node.test.operand, body=node.orelse,
+                orelse=node.body), node)
+        self.generic_visit(node)
+        return node
+
     def visit_Call(self, node):
         self.generic_visit(node)
         f = node.func
+        # calls of Table methods on table-named receivers are read in one
+        # form: the first parameter positionally (unless it is `axis`),
+        # every other argument by keyword, in signature order
+        if isinstance(f, ast.Attribute) and isinstance(f.value, ast.Name) \
+                and f.value.id in _TABLE_RECEIVERS and \
+                f.attr in TABLE_SIGNATURES and not any(
+                isinstance(a, ast.Starred) for a in node.args) and \
+                not any(k.arg is None for k in node.keywords):
+            params = TABLE_SIGNATURES[f.attr]
+            if params and len(node.args) <= len(params):
+                bound = dict(zip(params, node.args))
+                extra = []
+                clash = False
+                for k in node.keywords:
+                    if k.arg in bound:
+                        clash = True
+                    elif k.arg in params:
+                        bound[k.arg] = k.value
+                    else:
+                        extra.append(k)
+                if not clash:
+                    first = params[0]
+                    new_args = []
+                    if first in bound and first != 'axis':
+                        new_args = [bound[first]]
+                    new_kw = [ast.keyword(arg=p_, value=bound[p_])
+                              for p_ in params if p_ in bound and not (
+                                  new_args and p_ == first)]
+                    node.args = new_args
+                    node.keywords = new_kw + extra
         is_ctor = (isinstance(f, ast.Name) and f.id in ('Table', 'cls')) or \
             (isinstance(f, ast.Attribute) and f.attr == '__class__')
         if is_ctor and node.keywords and not any(
